@@ -132,6 +132,64 @@ def user_classes():
             self.count = self.count + 1
             self.q.prepare(self.d.get() + self.step)
 
+    # behavioural classes whose attribute / local-variable NAMES overlap: one keeps a constructor argument under a name that
+    # another uses for a local variable (mask, step, lo) -- what one transpilation learns must not leak into the next
+    class Thresh(py4hw.Logic):
+        def __init__(self, parent, name, a, r, mask):
+            super().__init__(parent, name)
+            self.a = self.addIn('a', a)
+            self.r = self.addOut('r', r)
+            self.mask = mask
+
+        def propagate(self):
+            if ((self.a.get() & self.mask) != 0):
+                self.r.put(1)
+            else:
+                self.r.put(0)
+
+    class LowBits(py4hw.Logic):
+        def __init__(self, parent, name, a, n, r):
+            super().__init__(parent, name)
+            self.a = self.addIn('a', a)
+            self.n = self.addIn('n', n)
+            self.r = self.addOut('r', r)
+
+        def propagate(self):
+            mask = (1 << self.n.get()) - 1
+            self.r.put(self.a.get() & mask)
+
+    class Stepper(py4hw.Logic):
+        def __init__(self, parent, name, a, r):
+            super().__init__(parent, name)
+            self.a = self.addIn('a', a)
+            self.r = self.addOut('r', r)
+
+        def clock(self):
+            step = self.a.get() & 3
+            self.r.prepare(self.r.get() + step)
+
+    class Window(py4hw.Logic):
+        def __init__(self, parent, name, a, r, lo):
+            super().__init__(parent, name)
+            self.a = self.addIn('a', a)
+            self.r = self.addOut('r', r)
+            self.lo = lo
+
+        def propagate(self):
+            self.r.put(self.a.get() >> self.lo)
+
+    class Clip(py4hw.Logic):
+        def __init__(self, parent, name, a, r):
+            super().__init__(parent, name)
+            self.a = self.addIn('a', a)
+            self.r = self.addOut('r', r)
+
+        def propagate(self):
+            lo = self.a.get() & 7
+            self.r.put(lo + 1)
+
+    _classes.update(Thresh=Thresh, LowBits=LowBits, Stepper=Stepper, Window=Window, Clip=Clip)
+
     class Box2(py4hw.Logic):
         """structural user block: r = (a + b) ; lt = a < b  (no structureName: instance-unique module name)"""
         def __init__(self, parent, name, a, b, r, lt, variant=0):
@@ -187,14 +245,14 @@ def user_classes():
     return _classes
 
 
-FAMILIES = ['rand', 'lib', 'beh', 'alias', 'clk2']
+FAMILIES = ['rand', 'lib', 'beh', 'alias', 'clk2', 'beh2']
 
 
 def build(family, seed):
     """reproducible from (family, seed).  All circuits are legal (every port connected)."""
     py4hw = common.quiet_import()
     U = user_classes()
-    rng = random.Random(seed * 7919 + {'rand': 1, 'lib': 2, 'beh': 3, 'alias': 4, 'bad': 5, 'clk2': 6}[family])
+    rng = random.Random(seed * 7919 + {'rand': 1, 'lib': 2, 'beh': 3, 'alias': 4, 'bad': 5, 'clk2': 6, 'beh2': 7}[family])
     with quiet():
         if family == 'rand':
             for attempt in range(8):          # a library constructor may reject a random configuration: legal circuits only
@@ -244,6 +302,25 @@ def build(family, seed):
                 U['Box2'](hw, 'bx', a, b, r2, l)
                 py4hw.Add(hw, 'u1', b, b, r1)
             return Circ(family, seed, hw, [a, b])
+        if family == 'beh2':
+            # a random selection (random order) of behavioural blocks with overlapping names, each on wires of its own
+            kinds = ['Thresh', 'LowBits', 'Stepper', 'Window', 'Clip', 'Acc', 'Thresh', 'Window']
+            rng.shuffle(kinds)
+            kinds = kinds[:rng.randint(2, 5)]
+            ins = [a]
+            for i, k in enumerate(kinds):
+                r = hw.wire('r%d' % i, w)
+                if k == 'Thresh':
+                    r1 = hw.wire('t%d' % i); U[k](hw, 'u%d' % i, a, r1, rng.choice([0xF0, 0x0C, 5, 1]))
+                elif k == 'LowBits':
+                    n = hw.wire('n%d' % i, 3); ins.append(n); U[k](hw, 'u%d' % i, a, n, r)
+                elif k == 'Window':
+                    U[k](hw, 'u%d' % i, a, r, rng.randrange(0, 4))
+                elif k == 'Acc':
+                    U[k](hw, 'u%d' % i, a, r, rng.randrange(1, 6))
+                else:
+                    U[k](hw, 'u%d' % i, a, r)
+            return Circ(family, seed, hw, ins)
         if family == 'clk2':
             # several clock domains: a named ClockDriver on a structural sub-block, registers below it (2-3 levels).
             # Register widths differ between the fast and the derived domains; two sibling derived domains may share a Reg<w>
